@@ -413,6 +413,9 @@ TABLE_OPS = [
     ("clear", 1),
     ("rowroute", 8),
     ("live_repeated", 3),
+    ("rstrip", 3),
+    ("optimize_width", 2),
+    ("transpose", 2),
 ]
 
 
@@ -582,6 +585,12 @@ def gen_op(rng, vals, grid, enc, allow=None):
             return {"op": name, "x": x, "cells": [gen_cell(rng, vals, allow_rep=False) for _ in range(n)]}
         if name == "clear":
             return {"op": name}
+        if name == "rstrip":
+            return {"op": name, "aggressive": rng.random() < 0.5}
+        if name in ("optimize_width", "transpose"):
+            if name == "transpose" and (H > MAX_H or W > MAX_W or max([len(r) for r in grid.rows] or [0]) > MAX_H):
+                continue
+            return {"op": name}
         if name == "rowroute":
             y = pick_y(rng, grid, enc)
             subs = []
@@ -670,6 +679,15 @@ def _expand_cells(cells):
     return out
 
 
+def TL_strip(row):
+    return strip_none(row)
+
+
+class ModelLaw(Exception):
+    """A law the operation must satisfy was broken (used where the exact result is the
+    implementation's choice)."""
+
+
 class ModelError(Exception):
     """The model expects the real call to raise this exception type."""
 
@@ -751,6 +769,34 @@ def apply_model(g: Grid, op, observed=None):
             g.set_cell(x, y, v, 1)
     elif o == "clear":
         g.clear()
+    elif o == "rstrip":
+        # no styled or ""-valued cells are generated, so aggressive or not is the same grid
+        while g.rows and all(v is None for v in g.rows[-1]):
+            g.rows.pop()
+        for row in g.rows:
+            while row and row[-1] is None:
+                row.pop()
+        g.W = min(g.W, max([len(r) for r in g.rows] or [0]))
+    elif o == "transpose":
+        old = g.rows
+        n = max([len(r) for r in old] or [0])
+        g.clear()
+        for x in range(n):
+            g._append_row([r[x] if x < len(r) else None for r in old])
+    elif o == "optimize_width":
+        # the result depends on how trailing empties are run-length encoded: the model is
+        # re-synchronised from the independent expansion after the C17 law has been checked
+        W, rows = observed["resync"]
+        before = [TL_strip(r) for r in g.rows]
+        while before and not before[-1]:
+            before.pop()
+        after = [TL_strip(r) for r in rows]
+        while after and not after[-1]:
+            after.pop()
+        if before != after:
+            raise ModelLaw("optimize_width moved or removed a non-empty value", before, after)
+        g.rows = [list(r) for r in rows]
+        g.W = W
     elif o == "rowroute":
         y = op["y"]
         content = list(g.rows[y]) if y < H else []
@@ -892,6 +938,13 @@ def apply_real(t, op, observed):
         t.set_column_cells(op["x"], [mk_cell(c) for c in op["cells"]])
     elif o == "clear":
         t.clear()
+    elif o == "rstrip":
+        t.rstrip(aggressive=op["aggressive"])
+    elif o == "transpose":
+        t.transpose()
+    elif o == "optimize_width":
+        t.optimize_width()
+        observed["resync"] = tabxml.expand(tabxml.parse(t.serialize(with_ns=True)))
     elif o == "rowroute":
         row = t.get_row(op["y"])
         for s in op["subs"]:
